@@ -105,10 +105,11 @@ func childMain(args []string) {
 			}
 		}
 		if _, ok := flags["record"]; ok {
+			// the recorder never fails: an error here is SaveGlobals reporting something else (not fatal for the
+			// observation; what matters is what AutoSave then does with the real file)
 			rec := &chunkRecorder{}
 			if _, e := s.SaveGlobals(rec); e != nil {
-				fmt.Println("BAD save", e)
-				os.Exit(3)
+				fmt.Printf("RECERR=1\n")
 			}
 			fmt.Printf("CHUNKS %s\n", hexList(rec.chunks))
 		}
